@@ -44,6 +44,21 @@ func (c *AcmeStorages) Acquire(name string) *AcmeCerts {
 		}
 		c.items[name] = storage
 		c.itemsAdd[name] = storage
+	} else if _, adding := c.itemsAdd[name]; !adding {
+		// A committed storage is about to receive more domains in place. Its
+		// current state is kept as the deleted one, so the change is part of
+		// the next add/del delta; shrink() drops both if nothing really changes.
+		if _, deleting := c.itemsDel[name]; !deleting {
+			old := &AcmeCerts{
+				certs:          make(map[string]struct{}, len(storage.certs)),
+				preferredChain: storage.preferredChain,
+			}
+			for cert := range storage.certs {
+				old.certs[cert] = struct{}{}
+			}
+			c.itemsDel[name] = old
+		}
+		c.itemsAdd[name] = storage
 	}
 	return storage
 }
